@@ -67,7 +67,7 @@ class SeqT(Ty):
 
 
 class LogT(Ty):
-    """Append-only ghost log of records.  fields: name -> 'V' | 'I' | 'B' | 'seq' (a sequence of V)."""
+    """Append-only ghost log of records.  fields: name -> 'V' | 'I' | 'B' | 'R' | 'seq' (a sequence of V)."""
     def __init__(self, fields):
         self.fields = dict(fields)
 
